@@ -517,11 +517,11 @@ class FsExecutor(object):
                  'path_filestat_get', 'path_create_directory', 'path_remove_directory', 'path_unlink_file', 'path_rename_old',
                  'path_rename_new', 'path_symlink', 'path_readlink')
 
-    def bad_fd_call(self, fn, fd, unstable, absolute=False):
+    def bad_fd_call(self, fn, fd, unstable, absolute=False, extreme=0):
         """any descriptor-taking call on a closed / never-issued descriptor must fail with EBADF (and stay memory-safe);
         absolute=True: the guest paths of the path_* calls are absolute (the directory descriptor is then not needed to FORM the
         host path, but it must be valid all the same)"""
-        self.record('bad_fd_call', fn, fd, unstable, absolute)
+        self.record('bad_fd_call', fn, fd, unstable, absolute, extreme)
         a = self.agent
         p, ln = self.put_path((self.real.encode() + b'/a') if absolute else b'a')
         P2, L2 = self.put_path((self.real.encode() + b'/zz') if absolute else b'zz', PATHBUF2)
@@ -538,6 +538,26 @@ class FsExecutor(object):
             'path_rename_new': (good, P2, L2, fd, P2, L2), 'path_symlink': (p, ln, fd, P2, L2),
             'path_readlink': (fd, p, ln, DIRBUF, 64, RES),
         }[fn]
+        if extreme:
+            # the OTHER arguments are invalid or extreme as well (counts, lengths, pointers, flags): the descriptor is examined
+            # first - the answer is still EBADF and no guest or host memory is touched on behalf of a descriptor that does not exist
+            big = (0, 1024, 1025, 65536, 0x7fffffff, 0xffffffff)[extreme % 6]
+            far = (0xfffffff0, self.agent.pages * 65536 - 4, 0)[extreme % 3]
+            alt = {
+                'fd_write': (fd, IOV, big, RES), 'fd_read': (fd, far, big, RES), 'fd_pwrite': (fd, far, big, (1 << 64) - 1, RES),
+                'fd_pread': (fd, IOV, big, 1 << 63, far), 'fd_seek': (fd, (1 << 63), 3 + extreme, far), 'fd_tell': (fd, far),
+                'fd_filestat_get': (fd, far), 'fd_fdstat_get': (fd, far), 'fd_prestat_get': (fd, far),
+                'fd_prestat_dir_name': (fd, far, big), 'fd_readdir': (fd, far, big, (1 << 64) - 1, far),
+                'path_open': (fd, 0xffffffff, p, (0, 5000, 0xffffffff)[extreme % 3], 0xffff, (1 << 64) - 1, (1 << 64) - 1, 0xffff, far),
+                'path_filestat_get': (fd, 0xffffffff, far, big, far),
+                'path_create_directory': (fd, P2, (0, 5000)[extreme % 2]), 'path_remove_directory': (fd, far, big),
+                'path_unlink_file': (fd, P2, (0, 5000)[extreme % 2]), 'path_rename_old': (fd, P2, 0, good, P2, 5000),
+                'path_rename_new': (good, P2, L2, fd, far, big), 'path_symlink': (p, (0, 5000)[extreme % 2], fd, P2, 0),
+                'path_readlink': (fd, p, 0, far, big, far),
+            }.get(fn)
+            if alt is not None:
+                args = alt
+                self.flags.add('invalid_descriptor_with_extreme_arguments')
         real_fn = 'path_rename' if fn.startswith('path_rename') else fn
         r = a.call(real_fn, unstable, *args)
         if r != E['BADF']:
